@@ -247,7 +247,7 @@ def _f15(case, failure):
             and bool(d.get('measured_cliques_overlap')) and fu <= 1e-18 * max(1.0, yn))
 
 
-FINDINGS = {'F10': _f10, 'F15': _f15}  # F14 (repeated cliques in FactorGraph) was repaired in /repo (b8597f6); its witness is a regression case
+FINDINGS = {'F10': _f10}  # F15 (unbounded step-size restarts) was repaired in /repo (189ad68), its two witnesses are regression cases; F14 (repeated cliques in FactorGraph) was repaired in /repo (b8597f6); its witness is a regression case
 
 
 def fixed_cases(tier):
@@ -265,7 +265,7 @@ def fixed_cases(tier):
              spellings=['dense'] * 3, np_seed=7)
     out.append(('witness:F10', w))
     bal = [dict(Q=np.eye(6), kind='identity', y=np.ones(6) * 10.0, sigma=1.0, proj=p) for p in [('A', 'B'), ('B', 'C')]]
-    out.append(('witness:F15', dict(attrs=['A', 'B', 'C'], shape=[2, 3, 2], meas=bal, structure='balanced', N=60.0, oracle='convex', exact=False,
+    out.append(('fixed:F15', dict(attrs=['A', 'B', 'C'], shape=[2, 3, 2], meas=bal, structure='balanced', N=60.0, oracle='convex', exact=False,
                                     iters=60, total=60.0, balanced=True, spellings=['dense'] * 2, np_seed=1)))
     import os
     import pickle
@@ -273,6 +273,11 @@ def fixed_cases(tier):
     if os.path.exists(wp):
         with open(wp, 'rb') as f:
             out.append(('fixed:F14', pickle.load(f)))
+    wp = os.path.join(os.path.dirname(wp), 'C18_F15_pairwise.pkl')
+    if os.path.exists(wp):
+        with open(wp, 'rb') as f:
+            w_ = pickle.load(f)
+            out.append(('fixed:F15_pairwise', w_['case'] if isinstance(w_, dict) and 'case' in w_ else w_))
     return out
 
 
